@@ -643,6 +643,74 @@ Definition fit_from_optimizer_given (m_unit v : R) : R := v * m_unit.
     return m
 
 
+def gen_fitpressure():
+    """forecast/forecast_pressure.py: statement-for-statement match of _obj_function and of the data preparation / parameter set-up of
+    fit_production_pressure (anything else fails closed); each matched statement is emitted as the Gallina term it denotes."""
+    import ast
+    m = P.Module(os.path.join(SRC, "forecast", "forecast_pressure.py"), "Gen_fitpressure")
+
+    def stmts(fn):
+        return [n for n in fn.body if not (isinstance(n, ast.Expr) and isinstance(n.value, ast.Constant))]
+
+    def expect(got, want, where):
+        got = [ast.unparse(n) for n in got]
+        if got != want:
+            k = next((i for i, (a, b) in enumerate(zip(got, want)) if a != b), min(len(got), len(want)))
+            raise P.Untranslatable(f"{where}: statement {k + 1} is `{got[k] if k < len(got) else '<missing>'}`, expected `{want[k] if k < len(want) else '<nothing more>'}`")
+    obj = m.funcs["_obj_function"]
+    if [a.arg for a in obj.args.args] != ["params", "days", "production", "pvt_table", "pressure_fracface"]:
+        raise P.Untranslatable("_obj_function: unexpected parameters")
+    expect(stmts(obj), ["tau = params['tau'].value", "resource_in_place = params['M'].value", "pressure_initial = params['p_initial'].value", "t = days / tau",
+                        "flow_propertiesM = FlowProperties(pvt_table, pressure_initial)",
+                        "res_realgasM = SinglePhaseReservoir(80, pressure_initial, pressure_initial, flow_propertiesM)",
+                        "res_realgasM.simulate(t, pressure_fracface=pressure_fracface)", "recovery_factor = res_realgasM.recovery_factor()",
+                        "return resource_in_place * recovery_factor - production"], "_obj_function")
+    fit = m.funcs["fit_production_pressure"]
+    pars = [a.arg for a in fit.args.args]
+    if pars != ["prod_data", "pvt_table", "pressure_initial", "filter_window_size", "pressure_imax", "inplace_max", "filter_zero_prod_days", "n_iter", "params"]:
+        raise P.Untranslatable("fit_production_pressure: unexpected parameters " + ", ".join(pars))
+    m.emit_names("fit_production_pressure_params", pars, "fit_production_pressure: parameters in order")
+    body = stmts(fit)
+    if len(body) != 9:
+        raise P.Untranslatable(f"fit_production_pressure: {len(body)} top-level statements, expected 9")
+    if not (isinstance(body[0], ast.If) and ast.unparse(body[0].test) == "filter_zero_prod_days"):
+        raise P.Untranslatable("fit_production_pressure: does not start with `if filter_zero_prod_days`")
+    expect(body[0].body, ["prod_data = prod_data[(prod_data['Gas'] > 0) & pd.notna(prod_data['Pressure'])][['Days', 'Gas', 'Pressure']]"], "row filter")
+    expect(body[0].orelse, ["prod_data = prod_data[['Days', 'Gas', 'Pressure']]"], "no row filter")
+    expect(body[1:3], ["time = np.arange(0, len(prod_data['Days']))", "pressure_fracface = np.array(prod_data['Pressure'])"], "time / pressure")
+    if not (isinstance(body[3], ast.If) and ast.unparse(body[3].test) == "filter_window_size is not None" and not body[3].orelse):
+        raise P.Untranslatable("fit_production_pressure: smoothing is not `if filter_window_size is not None:`")
+    expect(body[3].body, ["pressure_fracface = sp.ndimage.uniform_filter1d(pressure_fracface, size=filter_window_size)"], "smoothing")
+    expect(body[4:5], ["cumulative_prod = np.cumsum(np.array(prod_data['Gas']))"], "cumulative production")
+    if not (isinstance(body[5], ast.If) and ast.unparse(body[5].test) == "params is None" and not body[5].orelse):
+        raise P.Untranslatable("fit_production_pressure: default parameters are not set up under `if params is None:`")
+    expect(body[5].body, ["params = Parameters()", "params.add('tau', value=1000.0, min=30.0, max=time[len(time) - 1] * 2)",
+                          "params.add('M', value=cumulative_prod[-1], min=cumulative_prod[len(cumulative_prod) - 2], max=inplace_max)",
+                          "params.add('p_initial', value=pressure_initial, min=max(pressure_fracface), max=pressure_imax)"], "default parameters")
+    expect(body[6:], ["mini = Minimizer(_obj_function, params, fcn_args=(time, cumulative_prod, pvt_table, pressure_fracface))",
+                      "result = mini.minimize(method='Nelder', max_nfev=n_iter)", "return result"], "minimisation")
+    m.out.append("""(* _obj_function: SinglePhaseReservoir(80, p_initial, p_initial, FlowProperties(pvt_table, p_initial)).simulate(days / tau, pressure_fracface=schedule);
+   M * recovery_factor() - production *)
+Definition obj_nodes : nat := 80.
+Definition obj_constructor_pressures (p_initial : R) : R * R := (p_initial, p_initial).   (* pressure_fracface, pressure_initial *)
+Definition obj_scaled_time (days : list R) (tau : R) : list R := map (fun d => d / tau) days.
+Definition obj_mismatch (M : R) (rf production : list R) : list R := map (fun p => M * fst p - snd p) (combine rf production).
+(* fit_production_pressure: rows kept when filter_zero_prod_days (a missing pressure is None) *)
+Definition fpp_keep_row (r : R * option R) : bool := andb (if Rlt_dec 0 (fst r) then true else false) (match snd r with Some _ => true | None => false end).
+(* time = np.arange(0, len(rows)) *)
+Definition fpp_time (n : nat) : list R := map INR (seq 0 n).
+(* cumulative_prod = np.cumsum(gas) *)
+Fixpoint fpp_cumsum_from (acc : R) (l : list R) : list R := match l with [] => [] | x :: t => (acc + x) :: fpp_cumsum_from (acc + x) t end.
+Definition fpp_cumulative (gas : list R) : list R := fpp_cumsum_from 0 gas.
+(* default parameters: (value, min, max) *)
+Definition fpp_tau (n : nat) : R * R * R := (1000, 30, nth (n - 1) (fpp_time n) 0 * 2).
+Definition fpp_M (cum : list R) (inplace_max : R) : R * R * R := (last cum 0, nth (length cum - 2) cum 0, inplace_max).
+Definition fpp_p_initial (pressure_initial : R) (pf : list R) (pressure_imax : R) : R * R * R :=
+  (pressure_initial, fold_right Rmax (hd 0 pf) pf, pressure_imax).
+""")
+    return m
+
+
 def gen_plotting():
     import ast
     m = P.Module(os.path.join(SRC, "plotting.py"), "Gen_plotting")
@@ -660,8 +728,8 @@ def gen_plotting():
     return m
 
 
-GENERATORS = {"plotting": gen_plotting, "forecast": gen_forecast, "flowprops": gen_flowprops, "fluid": gen_fluid, "water": gen_water, "gas": gen_gas, "oil": gen_oil, "reservoir": gen_reservoir}
-DEPS = {"water": [], "gas": [], "oil": ["gas"], "reservoir": [], "fluid": ["gas", "oil", "water"], "flowprops": [], "forecast": [], "plotting": []}
+GENERATORS = {"fitpressure": gen_fitpressure, "plotting": gen_plotting, "forecast": gen_forecast, "flowprops": gen_flowprops, "fluid": gen_fluid, "water": gen_water, "gas": gen_gas, "oil": gen_oil, "reservoir": gen_reservoir}
+DEPS = {"fitpressure": [], "water": [], "gas": [], "oil": ["gas"], "reservoir": [], "fluid": ["gas", "oil", "water"], "flowprops": [], "forecast": [], "plotting": []}
 
 
 def module(name):
